@@ -24,6 +24,9 @@ def dispatch (j : Json) : Except String Json := do
   | "pfi_eff" => opEffRun false j
   | "sage_eff" => opEffRun true j
   | "impute_inputs" => opImputeInputs j
+  | "wrapper" => opWrapper j
+  | "river_wrap" => opRiverWrap j
+  | "validate" => opValidate j
   | "ping" => pure (Json.mkObj [("pong", Json.bool true)])
   | o => .error s!"unknown op {o}"
 
